@@ -5,7 +5,9 @@ A scenario is a JSON-able dict:
   {"arb": {"warmup_ms": 0},
    "watchers": [ {name, np, singleton, respawn, warmup_ms, graceful_ms, stop_signal, stop_children,
                   priority, autostart, max_retry, send_hup, on_demand, hooks: {hook: {"out": [..], "ignore": bool}}} ],
-   "behav": [ {"term": ["obey", delay_ms] | ["ignore"], "kill_lat": ms, "kids": n, "exec_fail": bool} ... ]   # per spawn attempt, cycled
+   "behav": [ {"term": ["obey", delay_ms] | ["ignore"], "kill_lat": ms, "kids": n, "exec_fail": bool,
+               "eperm": bool, "kid_eperm": bool} ... ]   # per spawn attempt, cycled; eperm: the daemon may not signal the worker
+                                                         # (it runs under another uid: os.kill raises EPERM), kid_eperm: nor its children
    "ops": [ ["start"] | ["req", {...}] | ["sig", "quit"|"reload"] | ["check"] | ["wake"] | ["adv", ms]
             | ["die", pid, status] | ["xkill", pid, sig] | ["fault", k, pid, status] ... ]}
 The trace is a list of canonical text lines (see `Trace`), the same lines the Lean model prints.
@@ -66,6 +68,7 @@ class Kernel(object):
         self.faults = []          # (k, pid, status): before kernel call #k of the next step
         self.armed = []
         self.log = []
+        self.reasons = []         # reason texts of the error replies of the current step (not part of the compared trace)
 
     # -- bookkeeping
     def out(self, line):
@@ -131,17 +134,23 @@ class Kernel(object):
         for _ in range(b.get("kids", 0)):
             cp = self.next_pid
             self.next_pid += 1
-            self.procs[cp] = SimProc(cp, pid, {"term": b.get("kid_term", ["obey", 0]), "kill_lat": 0})
+            self.procs[cp] = SimProc(cp, pid, {"term": b.get("kid_term", ["obey", 0]), "kill_lat": 0,
+                                               "eperm": bool(b.get("kid_eperm", False))})
         self.now += b.get("spawn_ms", 0)          # the fork/exec takes time (Process.started was read before it)
         return pid
 
-    def kill(self, pid, sig, via=""):
-        """os.kill semantics; returns False when ESRCH"""
+    def kill(self, pid, sig, via="", daemon=False):
+        """os.kill semantics; returns False when ESRCH.  `daemon`: the call is the daemon's own (not the outside world's): a
+        process it is not permitted to signal (behaviour `eperm`: another uid) makes it raise EPERM, nothing is delivered —
+        the permission check comes before everything else, also for a zombie"""
         self.tick()
         p = self.procs.get(pid)
         if p is None or p.state == "g":
             self.out("o sig %d %d g%s" % (pid, sig, via))
             return False
+        if daemon and p.behav.get("eperm"):
+            self.out("o sig %d %d %s%s!" % (pid, sig, p.state, via))
+            raise PermissionError(_errno.EPERM, os.strerror(_errno.EPERM))
         self.out("o sig %d %d %s%s" % (pid, sig, p.state, via))
         if p.state == "r" and sig != 0:
             if sig == signal.SIGKILL:
@@ -241,8 +250,17 @@ class _FakeChild(object):
 
     def send_signal(self, sig):
         import psutil
-        if not self.k.kill(self.pid, sig, via=""):
+        if not _psutil_kill(self.k, self.pid, sig, ""):
             raise psutil.NoSuchProcess(self.pid)
+
+
+def _psutil_kill(k, pid, sig, via):
+    """psutil.Process._send_signal: os.kill, PermissionError becomes psutil.AccessDenied (a psutil.Error, not an OSError)"""
+    import psutil
+    try:
+        return k.kill(pid, sig, via=via, daemon=True)
+    except PermissionError as err:
+        raise psutil.AccessDenied(pid) from err
 
 
 def make_popen(k):
@@ -295,11 +313,11 @@ def make_popen(k):
             return self.returncode
 
         def send_signal(self, sig):
-            if not k.kill(self.pid, sig):
+            if not _psutil_kill(k, self.pid, sig, ""):
                 raise psutil.NoSuchProcess(self.pid)
 
         def terminate(self):
-            if not k.kill(self.pid, signal.SIGTERM, via="t"):
+            if not _psutil_kill(k, self.pid, signal.SIGTERM, "t"):
                 raise psutil.NoSuchProcess(self.pid)
 
         def status(self):
@@ -427,6 +445,8 @@ class FakeStream(object):
         if self.closed:
             raise IOError("stream is closed")
         resp = json.loads(data)
+        if resp.get("status") == "error" and not getattr(self.k, "blocked", False) and hasattr(self.k, "reasons"):
+            self.k.reasons.append(str(resp.get("reason")))      # (the live kernel of harness/live.py keeps no such list)
         cid = self._cid.decode() if isinstance(self._cid, bytes) else str(self._cid)
         line = "o rep %s %s %s %s %s" % (cid, encj(resp.get("id")),
                                          resp.get("status"), resp.get("errno", "-") if resp.get("status") == "error" else "-",
@@ -667,6 +687,11 @@ class Sim(object):
         P.time = _FakeTime(self.k)
         W.tornado_sleep = self._tornado_sleep
         A.tornado_sleep = self._tornado_sleep
+        # tornado logs "Multiple exceptions in yield list" (every failure of a gen.multi after the first) as an error
+        self._app_log = logging.getLogger("tornado.application")
+        self._saved_app_log = (self._app_log.level, self._app_log.propagate)
+        self._app_log.propagate = False
+        self._app_log.setLevel(logging.CRITICAL)
         lg = logging.getLogger("circus")
         self._saved_log = (lg.level, lg.propagate)
         self._log_handler = _Capture(self.errors)
@@ -724,6 +749,8 @@ class Sim(object):
     def teardown(self):
         for mod, name, val in self._saved:
             setattr(mod, name, val)
+        self._app_log.setLevel(self._saved_app_log[0])
+        self._app_log.propagate = self._saved_app_log[1]
         logging.getLogger("circus").removeHandler(self._log_handler)
         logging.getLogger("circus").setLevel(self._saved_log[0])
         logging.getLogger("circus").propagate = self._saved_log[1]
@@ -767,6 +794,13 @@ class Sim(object):
         if isinstance(e, Blocked):
             self.blocked = True
             return
+        if "never retrieved" in str(ctx.get("message")):
+            # a failed future nobody asked about (a coroutine called without `yield`: the kill_process that spawn_process
+            # starts for an after_spawn-rejected worker, the _start_watchers that manage_watchers starts on a socket event):
+            # asyncio logs it when the future is freed — at once when only reference counts hold it, whenever the cycle
+            # collector runs when it sits in a cycle (spawn_process keeps that future in a local: future -> exception ->
+            # traceback -> frames -> future).  A log line whose moment depends on the collector is not behaviour.
+            return
         name = type(e).__name__ if e is not None else "error"
         self.raised.append(name)
         self.k.out("o raised %s" % name)
@@ -803,9 +837,13 @@ class Sim(object):
                     self.arb.__dict__["_verif_own_loop"] = True
                 self.arb.initialize = lambda: None
                 self.arb.ctrl.start = lambda: None
-                f = self.arb.start()
+                # own-loop call site: `loop.add_future(self.start_watchers(), cb)` — circusd passes no `cb`, so an exception of
+                # start_watchers is never asked for and asyncio logs it whenever the collector finds the future; the
+                # harness passes the documented `cb` as its observer (what `_watch` is for the provided-loop call site)
+                f = self.arb.start(cb=self._watch_done)
                 if f.done() and isinstance(f.exception(), ConflictError):
                     k.out("o conflict")
+                    k.reasons.append(str(f.exception()))
                 else:
                     self._watch(f)
             elif kind in ("req", "raw"):
@@ -847,8 +885,9 @@ class Sim(object):
                 try:
                     f = self.arb.manage_watchers()
                     self._watch(f)
-                except ConflictError:
+                except ConflictError as e:
                     k.out("o conflict")
+                    k.reasons.append(str(e))
             elif kind == "wake":
                 if self.sleepers:
                     self.sleepers.sort(key=lambda s: (s[0], s[1]))
@@ -923,16 +962,17 @@ class Sim(object):
         if self.blocked:
             k.log.append("o blocked")
 
+    def _watch_done(self, fut):
+        e = fut.exception()
+        if e is not None:
+            if isinstance(e, Blocked):
+                self.blocked = True
+            else:
+                self.k.out("o raised %s" % type(e).__name__)
+
     def _watch(self, f):
-        def done(fut):
-            e = fut.exception()
-            if e is not None:
-                if isinstance(e, Blocked):
-                    self.blocked = True
-                else:
-                    self.k.out("o raised %s" % type(e).__name__)
         if f is not None and hasattr(f, "add_done_callback"):
-            f.add_done_callback(done)
+            f.add_done_callback(self._watch_done)
 
     def snapshot(self):
         arb = self.arb
@@ -962,7 +1002,8 @@ class Sim(object):
 
     def step_record(self, op):
         return {"op": op, "lines": list(self.k.log), "snap": self.snapshot() if not self.blocked else "s blocked",
-                "slept": self.k.slept, "opts": self.options_digest() if not self.blocked else "-"}
+                "slept": self.k.slept, "opts": self.options_digest() if not self.blocked else "-",
+                "reasons": list(self.k.reasons)}
 
     def run(self):
         """returns list of steps: {"op":…, "lines":[…], "snap": "…", "slept": ms, "opts": "…"}"""
@@ -971,6 +1012,7 @@ class Sim(object):
         try:
             for op in self.sc["ops"]:
                 self.k.log = []
+                self.k.reasons = []
                 self.apply(op)
                 steps.append(self.step_record(op))
                 if self.blocked:
